@@ -77,7 +77,7 @@ HangBinop(t, ectx0) ==
 (***************************************************************************)
 AllContexts == {"local", "local2", "assign", "return", "return2", "if", "while", "repeat",
                 "arg", "arg2", "argfirst", "tpos", "tposfirst", "tname", "tkey", "index",
-                "prefix", "numfor", "genfor", "compound", "ifexp_then", "ifexp_else", "elseif"}
+                "prefix", "prefixl", "prefixm", "prefixi", "numfor", "genfor", "compound", "ifexp_then", "ifexp_else", "elseif"}
 LuauContexts == {"compound", "ifexp_then", "ifexp_else"}
 CondCtx == {"if", "while", "repeat", "elseif"}
 
@@ -101,6 +101,10 @@ CtxProgram(c, e) ==
     [] c = "tkey"      -> F1(Local(<<"t">>, <<Table(<<FExpr(e, Num("1"))>>)>>))
     [] c = "index"     -> F1(Assign(<<Name("x")>>, <<Chain(<<Name("t"), N("idx", "", <<e>>)>>)>>))
     [] c = "prefix"    -> F1(CallStmt(Chain(<<Par(e), CallArgs(<<>>)>>)))
+    \* a parenthesised prefix inside an expression: called, method-called, indexed
+    [] c = "prefixl"   -> F1(Local(<<"x">>, <<Chain(<<Par(e), CallArgs(<<>>)>>)>>))
+    [] c = "prefixm"   -> F1(Local(<<"x">>, <<Chain(<<Par(e), N("mcall", "m", <<CallArgs(<<Num("1")>>)>>)>>)>>))
+    [] c = "prefixi"   -> F1(Local(<<"x">>, <<Chain(<<Par(e), Leaf("dot", "k")>>)>>))
     [] c = "numfor"    -> F1(NumFor("i", e, Num("2"), EmptyBlock))
     [] c = "genfor"    -> F1(GenFor(<<"k">>, <<e>>, EmptyBlock))
     [] c = "compound"  -> F1(Compound("+=", Name("x"), e))
@@ -121,6 +125,7 @@ CtxPath(c) ==
     [] c = "tkey"      -> <<1, 2, 1, 1, 1>>
     [] c = "index"     -> <<1, 2, 1, 2, 1>>
     [] c = "prefix"    -> <<1, 1, 1, 1>>
+    [] c \in {"prefixl", "prefixm", "prefixi"} -> <<1, 2, 1, 1, 1>>
     [] c = "numfor"    -> <<1, 2>>
     [] c = "genfor"    -> <<1, 2, 1>>
     [] c = "compound"  -> <<1, 2>>
